@@ -549,3 +549,64 @@ pub fn f5_pool(rng: &mut Rng, valid: &[String], n_mut: usize) -> Vec<String> {
     rng.shuffle(&mut v);
     v
 }
+
+/// FEN records whose en-passant field names every square of the board in turn (both sides to move, with and without a
+/// pawn where the mark would need one) — the reader must refuse the wrong ranks, never trap on them
+pub fn fen_ep_sweep() -> Vec<String> {
+    let mut v = Vec::new();
+    let boards = [
+        "rnbqkbnr/pppppppp/8/8/8/8/PPPPPPPP/RNBQKBNR",
+        "4k3/8/8/pppppppp/PPPPPPPP/8/8/4K3",
+        "4k3/8/8/8/8/8/8/4K3",
+    ];
+    for b in boards {
+        for side in ["w", "b"] {
+            for sq in 0..64u8 {
+                v.push(format!("{} {} - {} 0 1", b, side, sq_name(sq)));
+            }
+        }
+    }
+    v
+}
+
+/// crowded placement fields: men and single empty squares in strict alternation (the longest placement text a board can
+/// have is 71 bytes: eight ranks of eight characters and seven separators), and neighbours of that extreme
+pub fn crowded_placements(rng: &mut crate::rng::Rng, n: usize) -> Vec<String> {
+    let men = b"PNBRQpnbrq";
+    let mut v = Vec::new();
+    for i in 0..n {
+        let mut ranks: Vec<String> = Vec::new();
+        for r in 0..8 {
+            let mut t = String::new();
+            let phase = rng.usize(2);
+            // how many of the alternating slots are merged back into longer gaps (0 = the 8-character extreme)
+            let merge = if i % 3 == 0 { 0 } else { rng.usize(3) };
+            let mut f = 0;
+            while f < 8 {
+                if (f + phase) % 2 == 0 {
+                    let c = men[rng.usize(men.len())] as char;
+                    let c = if (r == 0 || r == 7) && (c == 'P' || c == 'p') { 'N' } else { c };
+                    t.push(c);
+                    f += 1;
+                } else if merge > 0 && f + 2 < 8 && rng.chance(1, 3) {
+                    t.push('3');
+                    f += 3;
+                } else {
+                    t.push('1');
+                    f += 1;
+                }
+            }
+            ranks.push(t);
+        }
+        // kings somewhere
+        let mut s = ranks.join("/");
+        if let Some(p) = s.find(|c: char| c.is_ascii_uppercase()) {
+            s.replace_range(p..p + 1, "K");
+        }
+        if let Some(p) = s.rfind(|c: char| c.is_ascii_lowercase()) {
+            s.replace_range(p..p + 1, "k");
+        }
+        v.push(format!("{} {} - - {} {}", s, if rng.chance(1, 2) { "w" } else { "b" }, rng.usize(100), 1 + rng.usize(200)));
+    }
+    v
+}
